@@ -786,8 +786,10 @@ func versionGrid(tier string) {
 						if m2 > 8192 {
 							m2 = 8192
 						}
-						for _, v2 := range []string{"9P2000", "9P2000.u", ver, "9P2000.u"} {
-							dotu = s.version(m2, v2, sd == 1)
+						for k2, v2 := range []string{"9P2000", "9P2000.u", ver, "9P2000.u"} {
+							// the msize asked for goes down and up again: it may only ever shrink on a connection
+							mk := []uint32{m2, 24, m2, 4096}[k2]
+							dotu = s.version(mk, v2, sd == 1)
 							s.do(s.frame(st, dotu), sc)
 							s.do(s.frame(st, dotu), errAns("renegotiated", 9))
 						}
